@@ -798,31 +798,105 @@ def sk_instruction_flag(run, R="SK"):
 
 
 def sk_match_locals(run, R="SK"):
-    """get_match_statically_known: a rule parameter is declared `value known` to the rule body only behind the true answer of the
-    static analysis of its argument (is_value_statically_known for an expression, the same function for a nested match)"""
+    """get_match_statically_known: (a) a rule parameter is declared `value known` to the rule body only when the static analysis
+    of its argument says so (is_value_statically_known for an expression, the same function for a nested match): the flag stored is
+    that answer itself, or `true` behind its true edge; (b) every parameter is declared whatever the answer, so that a parameter's
+    name is never looked up among the global symbols; (c) the names of the current address (`$`, `pc`) are never answered from the
+    symbol table"""
     from rules_sym import deep
+    from mir import closure_of_origin
     f = run.anchor(R, "asm::matcher::get_match_statically_known")
     if f is None:
         return
-    guards = []
+    answers = []        # (call term, kind, bool_test or None)
     for bi, t in f.calls():
         c = t.get("resolved") or t.get("callee") or ""
         if c == f.id or c.endswith("Expr::is_value_statically_known") or c.endswith("expr::inspect::<impl expr::expression::Expr>::is_value_statically_known"):
-            bt = T.bool_test(f, t)
-            if bt is not None:
-                guards.append((bt[2], bt[0], c))
+            answers.append((bi, t, "nested" if c == f.id else "expr", T.bool_test(f, t)))
     ins = [(bi, t) for bi, t in f.calls() if re.search(r"HashMap::<.*>::insert$", t.get("callee") or "") and deep(f, t["args"][0], 4).endswith(".locals")]
-    bad = []
+    bad, always = [], 0
+    kinds = set()
     for bi, t in ins:
-        val = deep(f, t["args"][2], 4)
-        if "value_known: 0" in val or "value_known: false" in val:
+        ag = peel(f.origin_op(t["args"][2]))
+        flag = None
+        if ag and ag[0] == "agg" and "value_known" in (ag[1].get("fields") or []):
+            flag = ag[1]["ops"][ag[1]["fields"].index("value_known")]
+        if flag is None:
+            bad.append("%s: the declared local's `value_known` was not found" % f.loc(t["span"]))
             continue
-        if not any(f.edge_dominates(sb, tr, bi) for sb, tr, c in guards):
-            bad.append(f.loc(t["span"]))
-    kinds = set("nested" if c == f.id else "expr" for _, _, c in guards)
+        c = const_int(flag)
+        if c == 0:
+            always += 1
+            continue
+        if c == 1:
+            g_ = [(ab, at, k, bt) for ab, at, k, bt in answers if bt is not None and f.edge_dominates(bt[2], bt[0], bi)]
+            if not g_:
+                bad.append("%s: marked known without the analysis of the argument saying so" % f.loc(t["span"]))
+            else:
+                kinds |= {k for _, _, k, _ in g_}
+                bad.append("%s: the parameter is only declared when its argument is known: when it is not, its name is looked up among the global symbols (a constant of the same name would make it `known`)" % f.loc(t["span"]))
+            continue
+        src = peel(f.origin_op(flag))
+        hit = [(ab, at, k, bt) for ab, at, k, bt in answers if src and src[0] == "call" and src[1] is at]
+        if not hit:
+            bad.append("%s: `value_known` is `%s`, not the answer of the static analysis of the argument" % (f.loc(t["span"]), deep(f, flag, 4)[:80]))
+            continue
+        kinds |= {hit[0][2]}
+        # declared on both outcomes: the insertion is not confined to one edge of a test of that answer
+        bt = hit[0][3]
+        if bt is not None and (f.edge_dominates(bt[2], bt[0], bi) or f.edge_dominates(bt[2], bt[1], bi)):
+            bad.append("%s: the parameter is declared on one outcome of the analysis only" % f.loc(t["span"]))
+        else:
+            always += 1
     run.check(len(ins) >= 2 and not bad and kinds == {"nested", "expr"}, R, "SK|match|locals-known", f.loc(),
-              "get_match_statically_known: every parameter marked `value known` (%d site(s)) is behind the true answer of is_value_statically_known / the recursive analysis of the nested match" % len(ins),
-              "get_match_statically_known: a parameter is marked `value known` without the static analysis of its argument saying so (%s; guards found: %s): a rule body using an operand whose value depends on labels would be frozen after the first pass" % (bad or "-", sorted(kinds)))
+              "get_match_statically_known: every parameter is declared to the rule body with the answer of the static analysis of its own argument, whatever the answer (%d site(s))" % len(ins),
+              "get_match_statically_known: %s (answers used: %s): a rule body using an operand whose value depends on labels would be frozen after the first pass" % ("; ".join(bad) or "insertions not found", sorted(kinds)))
+    # (c) `$` / `pc`
+    okc, whyc = False, "no variable-query callback found"
+    for bi, si, st in f.stmts():
+        if st["k"] == "assign" and st["place"]["p"] and isinstance(st["place"]["p"][-1], dict) and st["place"]["p"][-1].get("name") == "query_variable":
+            cid = closure_of_origin(peel(f.origin_op(st["rv"]["op"]))) if st["rv"]["k"] in ("use", "cast") else None
+            g = f.prog.fn(cid) if cid else None
+            if g is None:
+                continue
+            lits = {}
+            lookups = set(b2 for b2, t2 in g.calls() if "get_by_name" in (t2.get("callee") or ""))
+            for a in T.str_eq_arms(g):
+                # follow the `name matches` edge with the constants assigned on the way (`matches!` goes through a temporary bool)
+                vals, hit_lookup = set(), False
+                seen, work = set(), [(a["true"], ())]
+                while work:
+                    x, env = work.pop()
+                    if (x, env) in seen:
+                        continue
+                    seen.add((x, env))
+                    e = dict(env)
+                    for st2 in g.blocks[x]["stmts"]:
+                        if st2["k"] == "assign" and not st2["place"]["p"]:
+                            c2 = const_int(st2["rv"]["op"]) if st2["rv"]["k"] == "use" else None
+                            if c2 is not None:
+                                e[st2["place"]["l"]] = c2
+                            else:
+                                e.pop(st2["place"]["l"], None)
+                    if x in lookups:
+                        hit_lookup = True
+                        continue
+                    t2 = g.blocks[x]["term"]
+                    if t2["k"] == "return":
+                        vals.add(e.get(0, "?"))
+                        continue
+                    nxt = g.succs(x)
+                    if t2["k"] == "switch" and op_local(t2["discr"]) in e:
+                        v = e[op_local(t2["discr"])]
+                        tg = [tg for vv, tg in t2["targets"] if int(vv) == v]
+                        nxt = tg if tg else [t2["otherwise"]]
+                    for y in nxt:
+                        work.append((y, tuple(sorted(e.items()))))
+                lits[a["lit"]] = 0 if (vals == {0} and not hit_lookup) else ("lookup" if hit_lookup else sorted(vals, key=str))
+            okc = lits.get("$") == 0 and lits.get("pc") == 0
+            whyc = "the callback answers %s for the address names before it looks the name up" % {k: v for k, v in lits.items() if k in ("$", "pc")}
+    run.check(okc, R, "SK|provider|address-names", f.loc(), "the variable query answers `not known` for `$` and `pc` before any symbol lookup",
+              "get_match_statically_known: %s: a user symbol called `pc` would make an operand `pc` (which evaluates to the current address) statically known" % whyc)
 
 
 def _straight(f, b, limit=6):
